@@ -211,8 +211,11 @@ func c39Alphabet(level int) []c39Op {
 	for _, n := range names {
 		ops = append(ops, c39Op{name: "B.Del(" + n + ")", kind: c39BDel, n: n})
 	}
-	ops = append(ops, c39Op{name: "B.Keep(a)", kind: c39BKeepA}, c39Op{name: "B.Keep()", kind: c39BKeepNone},
-		c39Op{name: "cur=B.Labels()", kind: c39BLabels}, c39Op{name: "B.Range(mutating)", kind: c39BRangeMut},
+	ops = append(ops, c39Op{name: "B.Keep(a)", kind: c39BKeepA})
+	if level >= 0 {
+		ops = append(ops, c39Op{name: "B.Keep()", kind: c39BKeepNone})
+	}
+	ops = append(ops, c39Op{name: "cur=B.Labels()", kind: c39BLabels}, c39Op{name: "B.Range(mutating)", kind: c39BRangeMut},
 		c39Op{name: "S.Reset()", kind: c39SReset})
 	for _, n := range names {
 		for i, v := range values {
@@ -233,11 +236,13 @@ func c39Alphabet(level int) []c39Op {
 		ctors = ctors[:4]
 	}
 	if level < 0 {
-		ctors = ctors[:3]
+		ctors = []c39Op{ctors[0], ctors[2]}
 	}
 	ops = append(ops, ctors...)
-	ops = append(ops, c39Op{name: "cur=cur.WithoutEmpty()", kind: c39WithoutEmpty}, c39Op{name: "cur=rebuildSymbolTable(cur)", kind: c39Rebuild},
-		c39Op{name: "cur=cur.Copy()", kind: c39Copy})
+	ops = append(ops, c39Op{name: "cur=cur.WithoutEmpty()", kind: c39WithoutEmpty})
+	if level >= 0 {
+		ops = append(ops, c39Op{name: "cur=rebuildSymbolTable(cur)", kind: c39Rebuild}, c39Op{name: "cur=cur.Copy()", kind: c39Copy})
+	}
 	return ops
 }
 
@@ -271,6 +276,7 @@ type c39Sys struct {
 	sstate   int               // scratch builder protocol state, see c39S*
 	pool     []c39Pool
 	skipped  int
+	ranges   int // number of mutating Range operations so far
 	tmp      c39Set
 	findings []c39Finding
 }
@@ -376,14 +382,17 @@ func (y *c39Sys) apply(op c39Op) {
 	case c39BLabels:
 		y.setCur(y.b.Labels(), c39FromMap(y.mb))
 	case c39BRangeMut:
-		// the callback renames every label n to n+"2" (a Del and a Set per label, like a labeldrop
-		// plus labelmap); Range must present the labels as they were at the call
+		// the k-th mutating Range renames every label n to n+"#k" (a Del and a Set per label, like a
+		// labeldrop plus labelmap; the new names can never be names being visited, so the outcome
+		// does not depend on the visiting order); Range must present the labels as they were at the call
+		y.ranges++
+		suffix := "#" + strconv.Itoa(y.ranges)
 		want := c39FromMap(y.mb)
 		var seen c39Set
 		y.b.Range(func(l Label) {
 			seen = append(seen, c39Pair{l.Name, l.Value})
 			y.b.Del(l.Name)
-			y.b.Set(l.Name+"2", l.Value)
+			y.b.Set(l.Name+suffix, l.Value)
 		})
 		sort.Slice(seen, func(i, j int) bool { return seen[i].N < seen[j].N })
 		if !seen.equal(want) {
@@ -391,7 +400,7 @@ func (y *c39Sys) apply(op c39Op) {
 		}
 		y.mb = map[string]string{}
 		for _, p := range want {
-			y.mb[p.N+"2"] = p.V
+			y.mb[p.N+suffix] = p.V
 			y.mbAdded = true
 		}
 	case c39SReset:
@@ -463,7 +472,7 @@ func (y *c39Sys) apply(op c39Op) {
 	}
 }
 
-var c39Probe = []string{"a", "b", "a2", "", "__name__", "aa", "b2", "c"}
+var c39Probe = []string{"a", "b", "a#1", "", "__name__", "aa", "b#1", "c"}
 
 func c39List(l Labels) c39Set {
 	var s c39Set
@@ -766,8 +775,8 @@ type c39Space struct {
 
 func c39Spaces(r *vx.Run) []c39Space {
 	return vx.Pick(r,
-		[]c39Space{{"full alphabet", 1, 3, 0, 1}, {"tiny alphabet", -1, 4, 0, 2}, {"symbol table at the 1024 growth boundary", 0, 3, 1021, 1}},
-		[]c39Space{{"full alphabet", 1, 4, 0, 2}, {"tiny alphabet", -1, 5, 0, 2}, {"symbol table at the 1024 growth boundary", 0, 3, 1021, 1}})
+		[]c39Space{{"full alphabet", 1, 3, 0, 1}, {"small alphabet", -1, 4, 0, 2}, {"symbol table at the 1024 growth boundary", -1, 3, 1021, 1}},
+		[]c39Space{{"full alphabet", 1, 4, 0, 2}, {"small alphabet", -1, 5, 0, 2}, {"symbol table at the 1024 growth boundary", 0, 3, 1021, 1}})
 }
 
 func TestVerifC39(t *testing.T) {
